@@ -50,6 +50,9 @@ def run(ctx):
     floor = pp.floor_product(ctx.tier)
     ctx.bounds['floor'] = len(floor)
     ctx.product_run('floor', 'checks.c01:run_case', floor, chunksize=1)
+    options = pp.options_product(ctx.tier)
+    ctx.bounds['options'] = len(options)
+    ctx.product_run('options', 'checks.c01:run_case', options, chunksize=1)
     ctx.product_run('shape', 'checks.c01:run_case', shape, chunksize=1)
     ctx.product_run('default-dtscale', 'checks.c01:run_case', dflt, chunksize=1)
     real = pp.real_product(ctx.tier)
